@@ -627,8 +627,12 @@ func doCheck(repo, verif, prop string, pc propConf, tier string, seed uint64, wo
 		"assumptions": pc.Assume, "wall_s": wall, "violations": len(reported),
 	}
 	eb, _ := json.MarshalIndent(ev, "", " ")
-	os.MkdirAll(filepath.Join(verif, "evidence"), 0o755)
-	if err := os.WriteFile(filepath.Join(verif, "evidence", prop+".json"), eb, 0o644); err != nil {
+	evDir := filepath.Join(verif, "evidence")
+	if d := os.Getenv("VERIF_EVIDENCE_DIR"); d != "" {
+		evDir = d // sensitivity runs against seeded changes must not overwrite the committed evidence
+	}
+	os.MkdirAll(evDir, 0o755)
+	if err := os.WriteFile(filepath.Join(evDir, prop+".json"), eb, 0o644); err != nil {
 		fmt.Fprintf(os.Stderr, "vcheck: %v\n", err)
 		cleanup()
 		return 2
@@ -636,6 +640,10 @@ func doCheck(repo, verif, prop string, pc propConf, tier string, seed uint64, wo
 	fmt.Printf("vcheck: %d runs (%d non-trivial, ~%d distinct), %d steps, %.1fs simulated, %d abstract states, wall %.1fs, exit %d\n",
 		tot.Runs, tot.Nontrivial, distinct, tot.Steps, float64(tot.SimTimeNS)/1e9, tot.States.estimate(), wall, exit)
 	cleanup()
+	if len(tot.Samples) == 0 {
+		fmt.Fprintln(os.Stderr, "vcheck: no sample run was recorded (evidence would be invalid)")
+		return 2
+	}
 	if tot.Runs == 0 {
 		fmt.Fprintln(os.Stderr, "vcheck: no runs executed")
 		return 2
